@@ -148,7 +148,7 @@ def gen_doc(rng, seed, with_id_expr=False, unterminated=False):
     vis = []          # regexes / markers for visible values
     nvar = 0
     for _ in range(rng.range(2, 7)):
-        kind = rng.below(9)
+        kind = rng.below(14)
         mark += 1
         e = '{{random()}}'
         if kind == 0:
@@ -172,8 +172,22 @@ def gen_doc(rng, seed, with_id_expr=False, unterminated=False):
                 parts.append('<loop count="{{randint(%d, %d)}}"><circle r="2" data-l%d="%s"/></loop>' % (k, k, mark, e)); n += k + 1
         elif kind == 7:
             parts.append('<if test="{{random() lt 2}}"><ellipse rx="4" ry="%s" data-m="m%d"/></if>' % (e, mark)); n += 2
-        else:
+        elif kind == 8:
             parts.append('<line x1="0" y1="0" x2="%s" y2="{{1 + random()}}" data-m="m%d"/>' % (e, mark)); n += 2
+        elif kind == 9:      # attributes of a group (and of a nested group)
+            if rng.chance(0.5):
+                parts.append('<g data-g%d="%s"><rect wh="2"/></g>' % (mark, e)); n += 1
+            else:
+                parts.append('<g data-g%d="%s" class="c%d"><g data-h%d="%s"><circle r="1" data-i%d="%s"/></g></g>' % (mark, e, mark, mark, e, mark, e)); n += 3
+        elif kind == 10:     # attributes of other containers
+            nm = rng.choice(['a', 'defs', 'symbol', 'clipPath', 'marker'])
+            parts.append('<%s id="n%d" data-c%d="%s"><rect wh="2" data-j%d="%s"/></%s>' % (nm, mark, mark, e, mark, e, nm)); n += 2
+        elif kind == 11:     # for loops: data list and body
+            parts.append('<for var="i" data="1, 2"><rect wh="2" data-f%d="%s"/></for>' % (mark, e)); n += 2
+        elif kind == 12:     # a shape with an explicit end tag and character content
+            parts.append('<rect xy="0" wh="9" data-k%d="%s">w%d:%s</rect>' % (mark, e, mark, e)); n += 2
+        else:                # use of an earlier element
+            parts.append('<rect id="u%d" wh="2"/><use href="#u%d" data-u%d="%s"/>' % (mark, mark, mark, e)); n += 1
     if with_id_expr:
         parts.insert(rng.below(len(parts) + 1), '<rect id="a{{randint(0, 1000)}}" xy="0" wh="3"/>'); n += 1
     if unterminated:
